@@ -100,7 +100,7 @@ class ISCSIDevice(metaclass=ExMETA):
             try:
                 cmd.sense = task.raw_sense
             except AttributeError:
-                pass
+                cmd.sense = None
             # Match recent addition to SCSIDevice
             if en_raw_sense:
                 cmd.raw_sense_data = cmd.sense
